@@ -100,7 +100,7 @@ PARSE_FACTS = {
 
 PROPS = {}
 
-GEN_OPS = ("GNLI ", "GNC ", "GSPLIT ", "GFP ", "GSL ", "GSCAN ", "GFINITE ", "GVALID ", "GUT ", "GWT ", "GPARSE ", "GSESS ", "GCTRL ", "GFLD ", "GRST ")
+GEN_OPS = ("GNLI ", "GNC ", "GSPLIT ", "GFP ", "GSL ", "GSCAN ", "GFINITE ", "GVALID ", "GUT ", "GWT ", "GPARSE ", "GSESS ", "GCTRL ", "GFLD ", "GRST ", "GREG ")
 
 
 def with_gen(cmp):
